@@ -220,10 +220,15 @@ pub fn gen_power_levels(t: &mut Tape, view: &View, actor: &str, malformed_ok: bo
 }
 
 /// A fresh first power-levels event in the usual shape (creator 100).
-pub fn initial_power_levels(t: &mut Tape, view: &View) -> J {
+pub fn initial_power_levels(t: &mut Tape, view: &View, many_admins: bool) -> J {
     let mut users = BTreeMap::new();
     users.insert(view.creator.clone(), level_value(t, 100, view.v, false));
     for u in &view.all_users {
+        if *u != view.creator && many_admins && t.chance(1, 2) {
+            // several admins on different servers: power-level changes can race across a partition
+            users.insert(u.clone(), level_value(t, 100, view.v, false));
+            continue;
+        }
         if *u != view.creator && t.chance(1, 3) {
             users.insert(u.clone(), { let nv = *t.pick(&[0, 25, 50, 75, 100]); level_value(t, nv, view.v, false) });
         }
